@@ -40,6 +40,10 @@ PROBE_SETS = [
 
 # extra documents aimed at hash-order sensitivity: several undeclared required names, equally titled objects under every composition keyword
 EXTRA_DOCS = [
+    # compositions whose members are all trivial, with and without a default; and compositions with one trivial member
+    ("trivial-compositions-with-defaults", {"type": "object", "title": "Triv", "properties": {"a": {"allOf": [{}, True], "default": {"k": 1}}, "b": {"anyOf": [{}], "default": 0}, "c": {"oneOf": [True], "default": "s"}, "d": {"not": False, "default": []}}}, None),
+    ("compositions-with-one-trivial-member", {"type": "object", "title": "Semi", "properties": {"a": {"anyOf": [True]}, "b": {"allOf": [{"type": "string"}, {}]}, "c": {"oneOf": [{}, {"type": "null"}]}, "d": {"anyOf": [{}, {"type": "integer"}], "allOf": [True]}}}, None),
+    ("root-trivial-composition-default", {"allOf": [True], "anyOf": [{}], "default": None}, None),
     ("required-undeclared", {"type": "object", "title": "R", "required": ["unit-price", "unit price", "z", "y", "x", "b", "a"], "properties": {"a": {"type": "integer"}}}, None),
     ("same-title-under-all-compositions", {"type": "object", "title": "Root", "anyOf": [{"type": "object", "title": "Same", "properties": {"a": {"type": "integer"}}}], "oneOf": [{"type": "object", "title": "Same", "properties": {"b": {"type": "string"}}}, {"type": "null"}], "allOf": [{"type": "object", "title": "Same", "properties": {"c": {"type": "null"}}}]}, None),
     ("untitled-under-all-compositions", {"type": "object", "anyOf": [{"type": "object", "properties": {"a": {}}}], "oneOf": [{"type": "object", "properties": {"b": {}}}], "allOf": [{"type": "object", "properties": {"c": {}}}], "not": {"type": "object", "properties": {"d": {}}}}, None),
